@@ -413,7 +413,75 @@ example (i j : Int) := fit_tilt_history (R := ℚ) rfl 3 3 (1/2) (1/4) (fun _ _ 
   [TiltOp.fit (fun k => k + 3), TiltOp.update (fun i j => i + 2 * j), TiltOp.fit (fun k => 1 / 3 - k)] (fun i j => i * j) [] i j
 example : fitSubtract (R := ℚ) 3 4 (1/2) (1/4) (fun _ _ => 1) (fun k => k) 0 1 = -(1/2) + 1/2 := by
   rw [fitSubtract_eq rfl]; simp [cc, RealLike.ofInt]; norm_num
+/-- non-vacuity of `fit_tilt_is_least_squares`: a 2x2 plane at ℚ with three non-collinear pixels; the OPD is piston 2, tip 3, tilt 5, the
+solver's answer `t = (2, 3, 5)` satisfies the normal equations (`hN`), the Gram matrix of the three pixels is non-singular (`hinj`), and
+`t' = (2, 0, 0)` fits what is left (`hN'`) — so all three hypotheses hold together -/
+example : (2 : ℚ) = 2 ∧ (0 : ℚ) = 0 ∧ (0 : ℚ) = 0 := by
+  have hB : ∀ k i j, pttBasis (R := ℚ) 2 2 1 1 (fun _ _ => 1) k i j =
+      (if k = 0 then 1 else if k = 1 then ((i - 1 : Int) : ℚ) else -((j - 1 : Int) : ℚ)) := by
+    intro k i j
+    simp only [pttBasis, Gen.pttRow, tripleGet, cc, RealLike.ofInt]
+    split_ifs <;> (push_cast; ring)
+  have key := fit_tilt_is_least_squares (R := ℚ) rfl {((0 : Int), (0 : Int)), (0, 1), (1, 0)} 2 2 1 1 (fun _ _ => 1)
+    (fun i j => 2 + 3 * ((i - 1 : Int) : ℚ) - 5 * ((j - 1 : Int) : ℚ)) (fun k => if k = 0 then 2 else if k = 1 then 3 else 5)
+    (fun k => if k = 0 then 2 else 0)
+    (by
+      intro k hk
+      apply Finset.sum_eq_zero; intro p _
+      simp only [hB]; norm_num; ring_nf; simp)
+    (by
+      intro d0 d1 d2 h
+      have e0 := h 0 (by simp); have e1 := h 1 (by simp); have e2 := h 2 (by simp)
+      simp only [hB] at e0 e1 e2
+      norm_num [Finset.sum_insert, Finset.sum_singleton] at e0 e1 e2
+      refine ⟨?_, ?_, ?_⟩ <;> linarith)
+    (by
+      intro k hk
+      apply Finset.sum_eq_zero; intro p _
+      unfold fitTiltOpd; rw [fitSubtract_eq rfl]
+      simp only [hB, cc, RealLike.ofInt]
+      norm_num <;> (split_ifs <;> (push_cast; ring)))
+  simpa using key
 end fit
+
+/-! ## The fit clause composed with the propagation clause -/
+section fitprop
+
+/-- **The plane returned by `fit_tilt` propagates like the original plane.** For ANY coefficients `t` the solver returned: the plane
+with the OPD `fit_tilt` leaves (`fitTiltOpd … t`) carrying the recorded element `Tilt(x=t[1], y=t[2])` as metadata (any integer/sub-pixel
+split of its `Field.shift`), and the original plane with its original OPD and no metadata, give the same complex value at every global
+output coordinate that both evaluate. Binary mask; the amplitude vanishes off the mask (what `Plane.multiply` hands over); the plane's
+pixel scale is the wavefront's `dx`. Composition of `fit_tilt_total_unchanged` with `tilt_representations_equiv_complex`. -/
+theorem fit_tilt_propagates_like_original (amp : Int → Int → ℂ) (mask opd : Int → Int → ℝ) (t : Int → ℝ)
+    (hmask : ∀ x y, mask x y = 1 ∨ (mask x y = 0 ∧ amp x y = 0))
+    (dx0 dx1 du0 du1 wl z : ℝ) (os : Int) (s0 s1 : Int) (hw : wl ≠ 0) (hz : z ≠ 0) (hos : os ≠ 0) (hdu : du0 ≠ 0 ∧ du1 ≠ 0)
+    (fix0 fix1 : Int) (sub0 sub1 : ℝ)
+    (hsplit : ((fix0 : ℝ) + sub0, (fix1 : ℝ) + sub1) = fieldShift [fitTiltRecord t] z wl du0 du1 os true)
+    (oe oe' : Extent) (P0 P1 P0' P1' : Int)
+    (hoe : oe.rmin ≤ oe.rmax ∧ oe.cmin ≤ oe.cmax) (hP : 0 < P0 ∧ 0 < P1)
+    (hoe' : oe'.rmin ≤ oe'.rmax ∧ oe'.cmin ≤ oe'.cmax) (hP' : 0 < P0' ∧ 0 < P1') (r c : Int)
+    (hin : (oe.inb r c && (propExtent P0 P1 fix0 fix1).inb r c) = true)
+    (hin' : (oe'.inb r c && (propExtent P0' P1' 0 0).inb r c) = true) :
+    embO (propagateField ⟨phasorField amp (fitTiltOpd s0 s1 dx0 dx1 mask opd t) wl s0 s1 0 0, fix0, fix1, sub0, sub1⟩
+      (dftAlpha dx0 dx1 du0 du1 wl z os).1 (dftAlpha dx0 dx1 du0 du1 wl z os).2 oe P0 P1) r c =
+    embO (propagateField ⟨phasorField amp opd wl s0 s1 0 0, 0, 0, 0, 0⟩
+      (dftAlpha dx0 dx1 du0 du1 wl z os).1 (dftAlpha dx0 dx1 du0 du1 wl z os).2 oe' P0' P1') r c := by
+  rw [tilt_representations_equiv_complex amp (fitTiltOpd s0 s1 dx0 dx1 mask opd t) (fitRecordXY t).1 (fitRecordXY t).2 dx0 dx1 du0 du1 wl z
+    os s0 s1 0 0 hw hz hos hdu fix0 fix1 sub0 sub1 hsplit oe oe' P0 P1 P0' P1' hoe hP hoe' hP' r c hin hin']
+  have hf : phasorField (K := ℂ) amp (fun x y => fitTiltOpd s0 s1 dx0 dx1 mask opd t x y +
+        ((fitRecordXY t).1 * RealLike.ofInt (cc s0 x + 0) * dx0 - (fitRecordXY t).2 * RealLike.ofInt (cc s1 y + 0) * dx1)) wl s0 s1 0 0 =
+      phasorField amp opd wl s0 s1 0 0 := by
+    unfold phasorField
+    congr 2
+    funext x y
+    rcases hmask x y with h1 | ⟨_, h0⟩
+    · have hu := fit_tilt_total_unchanged (R := ℝ) (by simp [RealLike.ofInt]) s0 s1 dx0 dx1 mask opd t x y
+      simp only [tiltRamp, h1, mul_one] at hu
+      simp only [add_zero]
+      rw [hu]
+    · rw [h0, zero_mul, zero_mul]
+  rw [hf]
+end fitprop
 
 /-! ## A first-order dispersive element displaces along its trace by the arc length its dispersion maps to the wavelength -/
 section dispersive
@@ -453,9 +521,10 @@ def DispersiveSolved (trace disp : List ℝ) (wl dist x : ℝ) : Prop :=
   Gen.dispDistResidual polyval disp dist wl = 0 ∧
   Gen.traceDistResidual (fun f a b => ∫ t in a..b, f t) (Gen.traceDistIntegrand Real.sqrt polyval polyder 1 trace) 0 x dist = 0
 
-/-- **Any-order dispersive displacement, under the solver contract**: the displacement (net of the incoming shift) lies on the trace
-polynomial, the dispersion polynomial maps `dist` to the wavelength, and `dist` is the arc length of the trace from its origin to the
-displacement's abscissa. -/
+/-- **The solver contract, unfolded** (not a result about the solvers: the conclusion is `DispersiveSolved` read through the generated
+residuals and tail). What it fixes is the FORM of what the code hands to scipy: if both residuals vanish, then the displacement (net of
+the incoming shift) is `(x, polyval(trace, x))`, the dispersion polynomial maps `dist` to the wavelength, and `dist` is the arc length
+`∫₀ˣ √(1 + T'²)` of the trace. A change of a residual, of the integrand or of the tail breaks this theorem. -/
 theorem dispersive_general_spec (trace disp : List ℝ) (wl dist x xs ys : ℝ) (h : DispersiveSolved trace disp wl dist x) :
     (Gen.dispersiveTail polyval trace x xs ys).2 - ys = polyval trace ((Gen.dispersiveTail polyval trace x xs ys).1 - xs) ∧
     polyval disp dist = wl ∧
@@ -484,6 +553,31 @@ theorem first_order_closed_form_is_solution (t0 t1 d0 d1 wl xs ys : ℝ) (hd0 : 
     field_simp; ring
   · simp only [Gen.dispersiveTail, Gen.dispersiveShift1, polyval, List.foldl, RealLike.ofInt]
     simp
+
+/-- **Mixed order: linear trace, dispersion of any order.** For `trace = [t0, t1]` the code takes the closed form `x = dist/√(1+t0²)`
+whatever `dist` the (possibly numerical) dispersion branch returned: that `x` makes the generated trace residual vanish, i.e. it is the
+abscissa at arc length `dist` — so only the dispersion root remains a contract in this case. -/
+theorem linear_trace_arc_length (t0 t1 dist : ℝ) :
+    Gen.traceDistResidual (fun f a b => ∫ t in a..b, f t) (Gen.traceDistIntegrand Real.sqrt polyval polyder 1 [t0, t1]) 0
+      (dist / Real.sqrt (1 + t0 * t0)) dist = 0 := by
+  have hpos : (0 : ℝ) < 1 + t0 * t0 := by nlinarith [mul_self_nonneg t0]
+  have hq : Real.sqrt (1 + t0 * t0) ≠ 0 := ne_of_gt (Real.sqrt_pos.mpr hpos)
+  simp only [Gen.traceDistResidual, Gen.traceDistIntegrand, polyval, polyder, List.foldl, List.length, RealLike.ofInt]
+  have hc : ∀ t : ℝ, ((0 : ℤ) : ℝ) * t + (((0 + 1 : ℕ) : ℤ) : ℝ) * t0 = t0 := by intro t; push_cast; ring
+  simp only [hc]
+  rw [intervalIntegral.integral_const, smul_eq_mul, sub_zero]
+  field_simp; ring
+
+/-- **Lists with elements of any order add and do not depend on the order**: `shift_additive` / `shift_perm_invariant` quantify over
+`TiltEl`, which has the constructor `dispersiveN trace x` (displacement = generated tail at the solver's abscissa); instance for a list
+mixing all three kinds. -/
+theorem any_order_lists_add (h0 : (RealLike.ofInt 0 : ℝ) = 0) (a b t0 t1 d0 d1 x : ℝ) (trace : List ℝ) (z wl : ℝ) :
+    foldShift [TiltEl.angular a b, TiltEl.dispersiveN trace x, TiltEl.dispersive1 t0 t1 d0 d1] z wl =
+      foldShift [TiltEl.dispersive1 t0 t1 d0 d1, TiltEl.angular a b, TiltEl.dispersiveN trace x] z wl :=
+  shift_perm_invariant h0 _ _ (by
+    have : [TiltEl.angular a b, TiltEl.dispersiveN trace x, TiltEl.dispersive1 t0 t1 d0 d1].Perm
+        ([TiltEl.angular a b, TiltEl.dispersiveN trace x] ++ [TiltEl.dispersive1 t0 t1 d0 d1]) := List.Perm.refl _
+    exact this.trans List.perm_append_comm) z wl
 
 /-- non-vacuity of `hsqrt`: the real square root qualifies -/
 example : ∀ a : ℝ, 0 < a → 0 < Real.sqrt a ∧ Real.sqrt a * Real.sqrt a = a :=
